@@ -56,7 +56,9 @@ def os_case(ctx, n):
         return AO.ActiveObject.dispatch(self, e)
       finally:
         rec['exit'] = stamp()
-  ao = MonAO(name='c04_os', instrumented=rng.random() < 0.7)
+  ao = MonAO(name='c04_os')
+  if rng.random() < 0.3:
+    ao.instrumented = False
   if spied and rng.random() < 0.3:
     ao.live_spy = True
     ao.register_live_spy_callback(lambda line: None)
